@@ -165,6 +165,7 @@ type simConn struct {
 	writes     []outWrite
 	overflowed int
 	lateWrites int // writes attempted after Close
+	admits     []bool // outcome of every SEND admission of this connection, in order
 	decodes    []decodeRec
 	hSends     []hSend
 	hOthers    []hOther
@@ -338,10 +339,26 @@ func (o *gateObserver) OnFrameIn(ev gatewaytypes.FrameEvent) {
 	c.frameN++
 	if c.firstFrame {
 		c.firstFrame = false
+		o.w.curConn.Store(int32(c.k))
 		return
 	}
 	c.gateN++
 	o.w.w.Park(fmt.Sprintf("GATE c%d #%d %s", c.k, c.gateN, ev.FrameType), &parkInfo{kind: "gate", conn: c.k})
+	o.w.curConn.Store(int32(c.k))
+}
+
+// OnAsyncSendAdmission records whether the SEND the reader just tried to
+// enqueue was admitted. The event carries no connection; it is raised by the
+// reader goroutine right after OnFrameIn for the same frame, and only one
+// reader runs per scheduler step.
+func (o *gateObserver) OnAsyncSendAdmission(ev gatewaytypes.AsyncSendAdmissionEvent) {
+	c := o.w.conns[int(o.w.curConn.Load())]
+	if c == nil {
+		return
+	}
+	c.mu.Lock()
+	c.admits = append(c.admits, ev.Result == "ok")
+	c.mu.Unlock()
 }
 
 // ---- parked call descriptions ----------------------------------------------
@@ -427,6 +444,8 @@ type client struct {
 	closeWhy  string
 	closeStep int
 	pushes    int
+	nAdmits   int // admission outcomes observed
+	admitted  int // SENDs admitted into the async queue
 
 	decodeErrStep int
 	lastPushSeq   uint64
@@ -485,6 +504,7 @@ type gworld struct {
 	clients   []*client
 	readers   sync.WaitGroup
 	stamp     atomic.Uint64
+	curConn   atomic.Int32 // connection whose reader last passed OnFrameIn
 
 	inflightSend atomic.Int64
 
